@@ -17,7 +17,11 @@ theorem gen_lookahead : Dtn7.Gen.C11.lookahead = true := by decide
 /-- The flag bits, message codes, ack-channel behaviour the model depends on. -/
 theorem gen_constants :
     Dtn7.Gen.C11.segmentEnd = 1 ∧ Dtn7.Gen.C11.segmentStart = 2 ∧
-    Dtn7.Gen.C11.xferSegment = 1 ∧ Dtn7.Gen.C11.xferAck = 2 ∧ Dtn7.Gen.C11.xferRefuse = 3 := by decide
+    Dtn7.Gen.C11.xferSegment = 1 ∧ Dtn7.Gen.C11.xferAck = 2 ∧ Dtn7.Gen.C11.xferRefuse = 3 ∧
+    Dtn7.Gen.C11.maxSegmentMtu = 1048576 ∧
+    Dtn7.Gen.C11.nextSegmentHead =
+      ["if mtu == 0", "  err = fmt.Errorf(\"segment MTU must not be zero\")", "  return",
+       "else if mtu > MaxSegmentMtu", "  mtu = MaxSegmentMtu"] := by decide
 
 /-- **Sender**: for every non-empty encoding and every segment size ≥ 1 the emitted train has no
 segment larger than the size, concatenates to the encoding, START exactly on the first and END
@@ -25,6 +29,16 @@ exactly on the last segment. -/
 theorem segments_ok (data : Bytes) (m : Nat) (hm : 0 < m) (hd : data ≠ []) :
     SegmentsOk data m (segments true m data) :=
   Lemmas.segments_ok_lookahead data m hm hd
+
+/-- The sender limits the segment size to `MaxSegmentMtu` whatever the peer declared: the train still
+meets the Spec for the DECLARED size (segments are only smaller). -/
+theorem segments_ok_capped (data : Bytes) (cap m : Nat) (hm : 0 < m) (hc : 0 < cap) (hd : data ≠ []) :
+    SegmentsOk data m (segmentsCapped true cap m data) := by
+  unfold segmentsCapped effMtu
+  have hne : cap ≠ 0 := Nat.pos_iff_ne_zero.mp hc
+  simp only [hne, ↓reduceIte]
+  have h := segments_ok data (min m cap) (by omega) hd
+  exact ⟨fun s hs => Nat.le_trans (h.1 s hs) (Nat.min_le_left m cap), h.2.1, h.2.2.1, h.2.2.2⟩
 
 /-- The code without the look-ahead (the tree before the `fix:` commit for D12) satisfies the
 statement only when the segment size does not divide the length … -/
